@@ -40,8 +40,8 @@ ASSUMPTIONS = [
     'synchronous (SCO/eSCO) set-up is not followed: its conclusion depends on the peer host answering the request',
 ]
 MIN_EVENTS = {
-    'quick': {'commands_swept': 1000, 'distinct_opcodes_swept': 200, 'pending_procedures_followed': 40,
-              'host_commands': 1500, 'own_opcode_checks': 1500, 'proc_cases': 40},
+    'quick': {'commands_swept': 2000, 'distinct_opcodes_swept': 200, 'pending_procedures_followed': 100,
+              'host_commands': 5000, 'own_opcode_checks': 5000, 'proc_cases': 150},
     'thorough': {'commands_swept': 18000, 'distinct_opcodes_swept': 220, 'pending_procedures_followed': 600,
                  'host_commands': 30000, 'own_opcode_checks': 30000, 'proc_cases': 800},
 }
@@ -73,7 +73,7 @@ OPEN_ENDED = {0x200D, 0x2043}
 
 def plan(tier, seed):
     cases = []
-    per = 3 if tier == 'quick' else 50
+    per = 6 if tier == 'quick' else 50
     chunk = 6
     from checks import c01
     regs = [e for e in c01.registries()['entries'] if e.kind == 'command']
@@ -84,7 +84,7 @@ def plan(tier, seed):
                           'seed': seed * 1000003 + i})
     for state in ('fresh', 'connected'):
         cases.append({'kind': 'sweep-unknown', 'state': state, 'seed': seed * 1000003, 'per': per})
-    for i in range(48 if tier == 'quick' else 960):
+    for i in range(200 if tier == 'quick' else 1200):
         cases.append({'kind': 'host', 'seed': seed * 1000003 + i})
     procs = ['le-connect-present', 'le-connect-absent-cancel', 'le-connect-adv-stops', 'classic-connect-present',
              'classic-connect-absent', 'disconnect-live', 'disconnect-unknown', 'disconnect-peer-gone',
@@ -92,7 +92,7 @@ def plan(tier, seed):
              'le-encrypt-live', 'le-encrypt-dead', 'cis-setup', 'cis-bad-handle', 'classic-features-live',
              'classic-auth-live', 'remote-version-live', 'remote-version-dead', 'classic-accept-central-switch-refused',
              'classic-accept-central-switch-allowed', 'classic-accept-peripheral']
-    reps = 3 if tier == 'quick' else 40
+    reps = 8 if tier == 'quick' else 40
     for p in procs:
         for k in range(reps):
             cases.append({'kind': 'proc', 'proc': p, 'seed': seed * 1000003 + k})
